@@ -18,7 +18,7 @@ ASSUMPTIONS = ['finite dyadic sample values only; NaN/inf inputs out of scope',
                'reference semantics vf/refsem.py transcribes the README definition (prev/next weak, s_prev/s_next strong)']
 
 TIMECOLS = (lambda n: list(range(n)),
-            lambda n: [0, 1.5, 2, 7, 7.25, 100][:n],
+            lambda n: [[0, 1.5, 2, 7, 7.25, 100][i % 6] + 1000 * (i // 6) for i in range(n)],
             lambda n: [10 + 0.5 * i for i in range(n)])
 
 
@@ -53,6 +53,18 @@ def _formula_sets(tier):
     ar = [('pred', '>=', t, F.C0) for t in terms] + [('pred', c, ('neg', F.X), ('ln', F.Y)) for c in ('<=', '==', '!==', '<', '>')]
     sets.append(('Arith', ar, (-1.0, 0.5, 2.0, 4.0), 2))
     sets.append(('Patterns', F.patterns(), F.V3 if not quick else F.V2, 3))
+    # Deep: larger bounds (up to 7), three nested temporal operators, long traces over a two-letter alphabet
+    deep = F.deep_formulas(F.UN_T + F.UNARY_PLAIN, ('since', 'until', 'unless'))
+    sets.append(('Deep1', [f for f in deep if len(F.fvars(f)) == 1], F.V2, 9 if quick else 11))
+    sets.append(('Deep2', [f for f in deep if len(F.fvars(f)) == 2], F.V2, 5 if quick else 6))
+    # three value levels on medium traces (ties and strictly monotone runs inside one window)
+    sets.append(('Deep3', [f for f in deep if len(F.fvars(f)) == 1][::(4 if quick else 1)], F.V3, 7 if quick else 8))
+    wide = F.wide_formulas(F.UN_T, ('since', 'until'))
+    sets.append(('Wide1', [f for f in wide if len(F.fvars(f)) == 1], F.V3, 5 if quick else 6))
+    sets.append(('Wide2', [f for f in wide if len(F.fvars(f)) == 2], F.V2, 3 if quick else 4))
+    # Long: the fixed family of long traces (periodic / spike / step, 40 samples) for the deep and wide formulas
+    lf = [f for f in (deep[::3] if quick else deep) + wide]
+    sets.append(('Long', lf, F.V3, 40))
     # S5: temporal operators directly over arithmetic terms and bare variables, three variables (one unused)
     sets.append(('Unused', [('once', (0, 1), ('-', F.X, F.Y)), ('always', (1, 2), ('neg', F.X)), ('until', None, F.X, ('abs', F.Y))],
                  F.V2, 3))
@@ -62,7 +74,7 @@ def _formula_sets(tier):
 def shards(tier):
     out = []
     for tag, fs, values, n in _formula_sets(tier):
-        per = 40 if tag in ('F1', 'Arith') else 60
+        per = 40 if tag in ('F1', 'Arith') else (4 if tag.startswith(('Deep', 'Long')) else 60)
         for i in range(0, len(fs), per):
             out.append({'tag': tag, 'formulas': [F.to_json(f) for f in fs[i:i + per]], 'values': list(values), 'n': n})
     return out
@@ -117,7 +129,10 @@ def run_shard(shard, tier, res):
                                        'trace': {}, 'times': []}, 'parse() raised %s: %s' % (type(e).__name__, e))
                 continue
             prev = None
-            all_traces = list(F.traces(shard['n'], values, len(decl)))
+            if shard['tag'] == 'Long':
+                all_traces = F.long_traces(len(decl), shard['n'], F.V3 if len(decl) == 1 else F.V2)
+            else:
+                all_traces = list(F.traces(shard['n'], values, len(decl)))
             # one specification object sees growing AND shrinking traces (stale per-object state of a longer evaluation
             # must not leak into a shorter one): even positions ascending, then odd positions descending
             all_traces = all_traces[::2] + all_traces[1::2][::-1]
